@@ -64,32 +64,56 @@ class Builder:
         return d
 
     def prune(self, tag, keep):
+        # Other hashes of the same tag are removed once they have not been used for two hours: a concurrent
+        # check (a sensitivity run against a scratch worktree, a `vp run`) may be executing out of one of them.
+        now = time.time()
         for e in os.listdir(BUILD_ROOT):
-            if e.startswith(tag + "-") and os.path.join(BUILD_ROOT, e) != keep:
-                shutil.rmtree(os.path.join(BUILD_ROOT, e), ignore_errors=True)
+            p = os.path.join(BUILD_ROOT, e)
+            if not e.startswith(tag + "-") or p == keep:
+                continue
+            try:
+                last_used = max(os.path.getmtime(p), os.path.getmtime(os.path.join(p, ".ok")) if os.path.exists(os.path.join(p, ".ok")) else 0)
+            except OSError:
+                continue
+            if now - last_used > 2 * 3600:
+                shutil.rmtree(p, ignore_errors=True)
 
-    def build(self, tag, inputs_hash, jobs):
+    def build(self, tag, inputs_hash, jobs, tolerate=None):
         """jobs: function(dir) -> list of (output name, command list) run in
-        parallel, or a list of stages of such lists. Returns dir."""
+        parallel, or a list of stages of such lists; a stage may also be a
+        function(failed) -> list, evaluated when it is reached. tolerate(name,
+        output) -> bool: a failing job for which it returns True is recorded
+        in <dir>/failures.json instead of ending the build. Returns dir."""
         d = self.dir_for(tag, inputs_hash)
         stamp = os.path.join(d, ".ok")
         if os.path.exists(stamp):
+            try:
+                os.utime(stamp, None)  # "in use now"
+            except OSError:
+                pass
             return d
         shutil.rmtree(d, ignore_errors=True)
         os.makedirs(d)
         self.prune(tag, d)
         t0 = time.time()
         stages = jobs(d)
-        if stages and not isinstance(stages[0], list):
+        if stages and not isinstance(stages[0], list) and not callable(stages[0]):
             stages = [stages]
+        failed = {}
         for stage in stages:
+            if callable(stage):
+                stage = stage(failed)
             with concurrent.futures.ThreadPoolExecutor(NCPU) as ex:
                 futs = {ex.submit(sh, cmd, cwd=d): (name, cmd) for name, cmd in stage}
                 for f in concurrent.futures.as_completed(futs):
                     name, cmd = futs[f]
                     r = f.result()
                     if r.returncode != 0:
+                        if tolerate and tolerate(name, r.stdout):
+                            failed[name] = dict(cmd=cmd if isinstance(cmd, str) else " ".join(cmd), output=r.stdout[-12000:])
+                            continue
                         raise BuildFailure("building %s failed:\n$ %s\n%s" % (name, cmd if isinstance(cmd, str) else " ".join(cmd), r.stdout[-6000:]))
+        json.dump(failed, open(os.path.join(d, "failures.json"), "w"), indent=1)
         open(stamp, "w").write("%.1f\n" % (time.time() - t0))
         log("[build] %s built in %.1fs" % (tag, time.time() - t0))
         return d
@@ -306,9 +330,12 @@ def gate_and_report(prop, binary, batch, outdir, extra=(), env=None, max_reports
 
 
 def write_evidence(prop, tier, seed, level, coverage, wall, violations, assumptions):
-    os.makedirs(os.path.join(VERIF, "evidence"), exist_ok=True)
+    # evidence describes /repo itself: a run pointed at a scratch copy (VERIF_REPO: sensitivity runs against a
+    # seeded change, background runs on a snapshot) writes its report under build/work instead
+    evdir = os.path.join(VERIF, "evidence") if os.path.realpath(REPO) == "/repo" else os.path.join(BUILD_ROOT, "work", "evidence-scratch")
+    os.makedirs(evdir, exist_ok=True)
     ev = dict(property_id=prop, tier=tier, seed=seed, level=level, coverage=coverage, assumptions=assumptions, wall_s=round(wall, 2), violations=violations)
-    path = os.path.join(VERIF, "evidence", prop + ".json")
+    path = os.path.join(evdir, prop + ".json")
     tmp = path + ".tmp"
     with open(tmp, "w") as fh:
         json.dump(ev, fh, indent=1, sort_keys=True)
